@@ -285,7 +285,7 @@ impl Prio3Visitor for V02<'_> {
                                 json!({"config": desc, "family": label, "input": bad.iter().take(40).map(|x| x.to_string()).collect::<Vec<_>>(),
                                        "output_sum_is_truncation_of_valid_encoding": valid_out, "nonce": hex(&nonce), "ctx": hex(&vctx)}));
                         } else {
-                            ctx.count("soundness_flukes");
+                            ctx.sporadic(64, format!("{k}|invalid-input-accepted|{class}"), json!({"config": desc, "family": label, "confirmations_accepted": acc, "nonce": hex(&nonce), "ctx": hex(&vctx)}));
                         }
                     }
                     Outcome::Rejected(stage, _) => {
@@ -378,7 +378,7 @@ impl Prio3Visitor for V02<'_> {
                             json!({"config": desc, "ops": format!("{:?}", ops.iter().map(|o| (o.0, &o.1)).collect::<Vec<_>>()), "measurement": p.meas_json(&m),
                                    "output_sum_valid": sum.map(|s| p.output_is_valid(&s)), "nonce": hex(&nonce), "ctx": hex(&vctx), "tape": hex_trunc(&tape, 128)}));
                     } else {
-                        ctx.count("soundness_flukes");
+                        ctx.sporadic(64, format!("{k}|tampered-accepted|{class}"), json!({"config": desc, "ops": format!("{:?}", ops.iter().map(|o| (o.0, &o.1)).collect::<Vec<_>>()), "confirmations_accepted": acc, "nonce": hex(&nonce), "ctx": hex(&vctx)}));
                     }
                 }
                 Outcome::Rejected(stage, _) => {
